@@ -415,7 +415,25 @@ func TestC04Responses(t *testing.T) {
 			}
 		}
 		for n := rapid.IntRange(1, 2).Draw(rt, "nmut"); n > 0; n-- {
-			switch rapid.IntRange(0, 5).Draw(rt, "where") {
+			switch rapid.IntRange(0, 6).Draw(rt, "where") {
+			case 6:
+				// the response breaks off right after a string token (a member name, a batch key, a string value): the decoder
+				// is then in the middle of a member, possibly with a key in hand that it has already handed to its own reader
+				var ends []int
+				for i := 0; i < len(c.Body); i++ {
+					if c.Body[i] == '"' && i > 0 {
+						ends = append(ends, i+1)
+					}
+				}
+				if len(ends) == 0 {
+					c.Body, c.Op = "", "body_blank"
+					break
+				}
+				cut := ends[rapid.IntRange(0, len(ends)-1).Draw(rt, "cut_after_string")]
+				if cut >= len(c.Body) {
+					cut = len(c.Body) - 1
+				}
+				c.Body, c.Op = c.Body[:cut], "body_cut_after_string"
 			case 0, 1, 2:
 				c.Body, c.Op = mutateString(rt, c.Body, "body")
 				if rapid.IntRange(0, 9).Draw(rt, "blank") == 0 {
